@@ -70,7 +70,7 @@ def run_checks(props):
     fired = {}
     for p in props:
         r = sh("./verif check %s" % p, cwd=HERE)
-        if r.returncode == 1:
+        if r.returncode == 1 and " violated " in r.stdout:
             fired[p] = [l for l in r.stdout.splitlines() if " violated " in l][:3]
         elif r.returncode != 0:
             fired[p] = ["ERROR rc=%d %s" % (r.returncode, (r.stdout + r.stderr)[-300:])]
